@@ -2,6 +2,7 @@ package c14
 
 import (
 	"encoding/json"
+	"errors"
 	"fmt"
 	"sort"
 	"strings"
@@ -972,6 +973,16 @@ func (e *env) exec(op opSpec) {
 
 	case "put", "putnew":
 		db, local, internal, name := e.iface(op.Iface)
+		if e.p.inj != nil && e.p.inj.readOnly {
+			cur := e.newRec(op)
+			var err error
+			e.safely(op.Kind, func() { err = e.doPut(db, op.Kind, newWrapper(e.full(k), cur.payload(), cur.Secret, cur.Crown)) })
+			if !errors.Is(err, database.ErrReadOnly) {
+				e.failf("PUT: %s: %s(%q) on a read-only database returned %v, want ErrReadOnly", name, op.Kind, k, err)
+			}
+			stats.Class("write_refused_by_read_only_database")
+			return
+		}
 		cur := e.newRec(op)
 		w := newWrapper(e.full(k), cur.payload(), cur.Secret, cur.Crown)
 		if cur.TTL > 0 {
@@ -1015,6 +1026,15 @@ func (e *env) exec(op opSpec) {
 
 	case "delete":
 		db, local, internal, name := e.iface(op.Iface)
+		if e.p.inj != nil && e.p.inj.readOnly {
+			var err error
+			e.safely("Delete", func() { err = db.Delete(e.full(k)) })
+			if !errors.Is(err, database.ErrReadOnly) {
+				e.failf("DELETE: %s: Delete(%q) on a read-only database returned %v, want ErrReadOnly", name, k, err)
+			}
+			stats.Class("write_refused_by_read_only_database")
+			return
+		}
 		want := e.modelGet(k, local, internal)
 		var veto error
 		var stored srec
